@@ -38,6 +38,10 @@ for e in sorted(engines):
     for t in (AUDIT.get(e) or "Spydr.%s.Audit" % LEAN_DIR[e], EXE.get(e, "drv_" + e)):
         if t not in targets:
             targets.append(t)
+# further audit files some engines use for a single property
+for extra in ("Spydr.IO.AuditC16",):
+    if os.path.exists(os.path.join(ROOT, "lean", *extra.split(".")) + ".lean") and extra not in targets:
+        targets.append(extra)
 man = {
     "version": 1,
     "setup_cmd": "cd lean && lake build " + " ".join(targets),
